@@ -349,6 +349,9 @@ func loadFilters(w *World) (map[string]bs.BloomFilters, map[string]bs.BloomFilte
 func sweepCase(tk namedTok, lay layout, o sweepOpts) CaseResult {
 	var res CaseResult
 	rows := alphaRows()
+	if n := layoutLimit[lay.name]; n > 0 && len(rows) > n {
+		rows = rows[:n]
+	}
 	tcfg := quietConfig()
 	tcfg.Tokenizer = tk.eng
 	tcfg.RowDataCompression = bs.CompressionNone
